@@ -371,3 +371,78 @@ Proof.
   - intros [H1 H2]. apply lex_antisym; assumption.
   - intros ->. destruct (lex_total b b); tauto.
 Qed.
+
+(* ------------------------------------------------------------------ invariance under Permutation
+   (SQL tables are bags: the order of the input rows must not matter) *)
+From Coq Require Import Sorting.Permutation.
+
+Lemma filter_perm {A} (p : A -> bool) l l' : Permutation l l' -> Permutation (filter p l) (filter p l').
+Proof.
+  induction 1 as [|x l l' H IH|x y l|l l' l'' H1 IH1 H2 IH2]; cbn.
+  - constructor.
+  - destruct (p x); [constructor|]; exact IH.
+  - destruct (p x), (p y); try reflexivity. apply perm_swap.
+  - eapply perm_trans; eauto.
+Qed.
+Lemma countZ_perm {A} (p : A -> bool) l l' : Permutation l l' -> countZ p l = countZ p l'.
+Proof. intros H. unfold countZ. rewrite (Permutation_length (filter_perm p l l' H)). reflexivity. Qed.
+Lemma sumZ_perm l l' : Permutation l l' -> sumZ l = sumZ l'.
+Proof. induction 1; cbn; lia. Qed.
+Lemma sum_by_perm {A} (f : A -> Z) l l' : Permutation l l' -> sum_by f l = sum_by f l'.
+Proof. intros H. unfold sum_by. apply sumZ_perm. apply Permutation_map. exact H. Qed.
+Lemma flat_map_perm {A B} (g : A -> list B) l l' : Permutation l l' -> Permutation (flat_map g l) (flat_map g l').
+Proof.
+  induction 1 as [|x l l' H IH|x y l|l l' l'' H1 IH1 H2 IH2]; cbn.
+  - constructor.
+  - apply Permutation_app_head. exact IH.
+  - rewrite !app_assoc. apply Permutation_app_tail. apply Permutation_app_comm.
+  - eapply perm_trans; eauto.
+Qed.
+
+(* two strictly sorted lists with the same elements are the same list *)
+Lemma sorted_unique {A} (R : A -> A -> Prop) :
+  (forall a, ~ R a a) -> (forall a b c, R a b -> R b c -> R a c) ->
+  forall l1 l2, StronglySorted R l1 -> StronglySorted R l2 -> (forall x, In x l1 <-> In x l2) -> l1 = l2.
+Proof.
+  intros Hirr Htr. induction l1 as [|h1 t1 IH]; intros l2 H1 H2 Hin.
+  - destruct l2 as [|h2 t2]; [reflexivity|]. exfalso. apply (Hin h2). left. reflexivity.
+  - destruct l2 as [|h2 t2]; [exfalso; apply (Hin h1); left; reflexivity|].
+    inversion H1 as [|? ? S1 F1]; subst. inversion H2 as [|? ? S2 F2]; subst.
+    rewrite Forall_forall in F1, F2.
+    assert (Hh : h1 = h2).
+    { destruct (proj1 (Hin h1) (or_introl eq_refl)) as [E|E]; [symmetry; exact E|].
+      destruct (proj2 (Hin h2) (or_introl eq_refl)) as [E'|E']; [exact E'|].
+      exfalso. apply (Hirr h1). eapply Htr; [apply F1; exact E'|apply F2; exact E]. }
+    subst h2. f_equal. apply IH; try assumption. intros x. split; intros Hx.
+    + destruct (proj1 (Hin x) (or_intror Hx)) as [E|E]; [|exact E]. subst x. exfalso. apply (Hirr h1), F1, Hx.
+    + destruct (proj2 (Hin x) (or_intror Hx)) as [E|E]; [|exact E]. subst x. exfalso. apply (Hirr h1), F2, Hx.
+Qed.
+
+Section GroupKeysPerm.
+  Context {A K : Type}.
+  Variable key : A -> K.
+  Variable leb : K -> K -> bool.
+  Hypothesis leb_total : forall a b, leb a b = true \/ leb b a = true.
+  Hypothesis leb_trans : forall a b c, leb a b = true -> leb b c = true -> leb a c = true.
+  Hypothesis eqk_eq : forall a b, eqk leb a b = true -> a = b.      (* key equality is Leibniz *)
+
+  Lemma group_keys_in l k : In k (group_keys key leb l) <-> exists x, In x l /\ k = key x.
+  Proof.
+    split; [apply group_keys_from|]. intros (x & Hx & ->).
+    destruct (group_keys_cover key leb leb_total leb_trans l x Hx) as (k & Hk & He).
+    apply eqk_eq in He. subst k. exact Hk.
+  Qed.
+  Lemma group_keys_perm l l' : Permutation l l' -> group_keys key leb l = group_keys key leb l'.
+  Proof.
+    intros H. apply (sorted_unique (fun a b => ltk leb a b = true)).
+    - intros a Ha. unfold ltk in Ha. destruct (leb a a); discriminate.
+    - apply (ltk_trans leb leb_trans).
+    - apply group_keys_sorted; assumption.
+    - apply group_keys_sorted; assumption.
+    - intros k. rewrite !group_keys_in. split; intros (x & Hx & ->); exists x; split; try reflexivity.
+      + eapply Permutation_in; eauto.
+      + eapply Permutation_in; [apply Permutation_sym|]; eauto.
+  Qed.
+  Lemma members_perm l l' k : Permutation l l' -> Permutation (members key leb l k) (members key leb l' k).
+  Proof. apply filter_perm. Qed.
+End GroupKeysPerm.
